@@ -73,7 +73,8 @@ def finalize(agg, tier):
              "cfb_segment_sizes_AES_16", "cfb_segment_sizes_64bit_8", "ctr_counter_little_endian", "ctr_counter_suffix",
              "ctr_initial_bytes", "ctr_initial_int", "gcm_nonce_not_96", "gcm_nonce_96", "ccm_aad_header_6", "ccm_aad_header_2",
              "ccm_declared", "ccm_undeclared", "siv_no_nonce", "siv_nonce", "chacha_seek", "chacha_walks", "chacha_walk_seek:+2^32-blocks",
-             "chacha_walk_seek:same-block", "arc4_drop", "bulk_cases"]
+             "chacha_walk_seek:same-block", "arc4_drop", "bulk_cases", "decoy_objects", "decoy_objects:toggle-param",
+             "decoy_objects:other-iv", "decoy_objects:ecb-same-key"]
     for m in ("CBC", "CFB", "OFB", "CTR", "OPENPGP", "GCM", "CCM", "EAX", "OCB", "CHACHA20_POLY1305", "Salsa20", "ChaCha20"):
         need.append("libchosen:" + m)
     for m in A.CLASSIC_MODES + AEADS + ["KW", "KWP", "CHACHA20_POLY1305"]:
@@ -95,6 +96,10 @@ def run(spec, ctx):
     # every random byte the library draws (nonces, IVs) comes from the shard's seeded generator -> replayable
     with entropy.Tape(b"", rng=ctx.rng):
         globals()["w_" + spec["kind"]](spec, ctx)
+    for k, v in A.DECOY["made"].items():
+        ctx.count("decoy_objects:" + k, v)
+        if k != "failed":
+            ctx.count("decoy_objects", v)
 
 
 def _count_case(ctx, cipher, mode, path, who=None):
